@@ -117,6 +117,218 @@ def parse_func(tokens):
     return t
 
 
+# ---------------------------------------------------------------- call-site positions and scope levels
+SITES = ["after", "own-body", "sibling", "lambda"]
+
+
+def tdecl(name, o, indent, body_extra=""):
+    """an overload whose tag is its return type T<tag> (observable at compile time)"""
+    gens, ps, nreq = o["ov"]
+    g = ("<" + ", ".join(gens) + ">") if gens else ""
+    params = ", ".join(f"a{i}: {src(p)}" + ("" if i < nreq else ' ?= error("d")') for i, p in enumerate(ps))
+    return f"{indent}fn {name}{g}({params})->T{o['tag']}{{ {body_extra}T{o['tag']}(0) }}\n"
+
+
+def tforward(name, o, indent):
+    gens, ps, nreq = o["ov"]
+    g = ("<" + ", ".join(gens) + ">") if gens else ""
+    params = ", ".join(f"a{i}: {src(p)}" + ("" if i < nreq else ' ?= error("d")') for i, p in enumerate(ps))
+    return f"{indent}forward fn {name}{g}({params})->T{o['tag']};\n"
+
+
+def gen_site_set(rng):
+    """overloads of one name spread over 2-3 scope levels (0 = root, 1 = an enclosing function, 2 = a function nested
+    in it); the innermost level has at least one overload, declared last there (it hosts the own-body / lambda sites).
+    Each overload: tag (return type T<tag>; copies of a signature share the tag of the original), level, forward-declared?,
+    late? (root only: implemented after the enclosing function, so that the forward is still pending at the call site)"""
+    name, hint = rng.choice(NAMES)
+    nargs = hint if hint is not None else rng.choice([1, 1, 2, 2])
+    args = [rng.choice(ARG_EXPRS) for _ in range(nargs)]
+    nlevels = rng.choice([2, 2, 3])
+    k = rng.choice([1, 2, 2, 3, 3, 4])
+    ovs = []
+    for i in range(k):
+        ovs.append({"tag": i + 1, "ov": gen_overload(rng, nargs, args), "level": rng.randrange(nlevels)})
+    # identical / alpha-renamed signatures across levels
+    for _ in range(rng.choice([0, 1, 1, 2])):
+        o = rng.choice(ovs)
+        gens, ps, nreq = o["ov"]
+        if rng.random() < 0.4 and gens:
+            ren = {"T": "Aa", "U": "Bb"}
+            ov2 = (tuple(sorted(ren.get(g, g) for g in gens)), tuple(rename(p, ren) for p in ps), nreq)
+        else:
+            ov2 = o["ov"]
+        lv = rng.choice([l for l in range(nlevels) if l != o["level"]])
+        ovs.append({"tag": o["tag"], "ov": ov2, "level": lv})
+    if not any(o["level"] == nlevels - 1 for o in ovs):
+        rng.choice(ovs)["level"] = nlevels - 1
+    for i, o in enumerate(ovs):
+        o["id"] = 7001 + i
+        same_sig_same_level = sum(1 for x in ovs if x["level"] == o["level"] and x["ov"] == o["ov"] and x["tag"] == o["tag"])
+        o["forward"] = same_sig_same_level == 1 and rng.random() < 0.3
+        o["late"] = o["forward"] and o["level"] == 0 and rng.random() < 0.4
+    return name, args, nlevels, ovs
+
+
+def site_program(name, args, nlevels, ovs, site, site_stmt):
+    tags = sorted({o["tag"] for o in ovs})
+    out = "".join(f"struct T{t}(v: int)\n" for t in tags)
+    inner = nlevels - 1
+    host = [o for o in ovs if o["level"] == inner][-1]
+
+    def level_text(lv, indent):
+        mine = [o for o in ovs if o["level"] == lv]
+        t = "".join(tforward(name, o, indent) for o in mine if o["forward"])
+        for o in mine:
+            if o["late"]:
+                continue
+            extra = ""
+            if o is host and site == "own-body":
+                extra = site_stmt + " "
+            if o is host and site == "lambda":
+                extra = f"let lam = ()->{{ {site_stmt} 0 }}; "
+            t += tdecl(name, o, indent, extra)
+        return t
+
+    def site_text(indent):
+        if site == "after":
+            return f"{indent}{site_stmt}\n"
+        if site == "sibling":
+            return f"{indent}fn sib()->int{{ {site_stmt} 0 }}\n"
+        return ""
+    out += level_text(0, "")
+    out += "fn outer()->int{\n" + level_text(1, "  ")
+    if nlevels == 3:
+        out += "  fn wrap()->int{\n" + level_text(2, "    ") + site_text("    ") + "    0\n  }\n"
+    else:
+        out += site_text("  ")
+    out += "  0\n}\n"
+    out += "".join(tdecl(name, o, "") for o in ovs if o["late"])
+    return out, host
+
+
+def site_model_line(name, args, nlevels, ovs, site, host, lib):
+    """the scope chain of the call site for the model's get_item: innermost first, `<height> <recourse> <n> cands`"""
+    a_toks = " ".join(tstr(t) for t, _ in args)
+
+    def cand(o, pending):
+        gens, ps, nreq = o["ov"]
+        k = "p" if pending else "s"
+        return f"{k} {o['id']} " + tstr(FUNC(gens if gens else None, ps, nreq, CMP("S", f"T{o['tag']}")))
+    inner = nlevels - 1
+    in_body = site in ("own-body", "lambda")
+    levels = []
+    if site == "lambda":
+        levels.append(f"{inner + 3} - 0")
+    if site == "sibling":
+        levels.append(f"{inner + 2} - 0")
+    if in_body:
+        gens, ps, nreq = host["ov"]
+        rt = tstr(FUNC(gens if gens else None, ps, nreq, CMP("S", f"T{host['tag']}")))
+        levels.append(f"{inner + 2} {rt} 1 " + cand(host, False))
+    for lv in range(inner, -1, -1):
+        cs = []
+        if lv == 0:
+            for i, c in enumerate(lib):
+                kk, spec = c.split(" ", 1)
+                cs.append(f"{kk} {100000 + i} {spec}")
+        mine = [o for o in ovs if o["level"] == lv]
+        # registration order: forward declarations first, then the other overloads in declaration order
+        for o in [x for x in mine if x["forward"]] + [x for x in mine if not x["forward"]]:
+            if o is host and in_body:
+                if o["forward"]:
+                    cs.append(cand(o, True))        # its own forward declaration, still pending
+                continue                            # otherwise not registered yet in the declaring scope
+            cs.append(cand(o, o["late"]))
+        levels.append(f"{lv + 1 if lv > 0 else 0} - {len(cs)}" + ("" if not cs else " " + " ".join(cs)))
+    return f"ovl resolve_at {len(args)} {a_toks} {len(levels)} " + " ".join(levels)
+
+
+def run_sites(chk, rng, quick):
+    n = 130 if quick else 2500
+    sets = [gen_site_set(rng) for _ in range(n)]
+    # library candidates in the presence of the user's overloads (all declared flat at the root)
+    lreqs = []
+    for name, args, nlevels, ovs in sets:
+        tags = sorted({o["tag"] for o in ovs})
+        pre = "".join(f"struct T{t}(v: int)\n" for t in tags) + "".join(tdecl(name, o, "") for o in ovs)
+        lreqs.append({"op": "ovl", "f": "list", "prelude": pre, "name": name, "args": " ".join(tstr(t) for t, _ in args)})
+    lresp = run_harness(lreqs, per_req_timeout=30.0)
+    progs = []
+    for (name, args, nlevels, ovs), r in zip(sets, lresp):
+        if "cands" not in r:
+            raise BuildError("ovl list failed: " + json.dumps(r)[:300])
+        lib = [c for c in r["cands"][:len(r["cands"]) - len(ovs)] if c != "dfail"]
+        a_types = [t for t, _ in args]
+        cands = [(o["id"], "s", bool(o["ov"][0]), o["ov"][1], o["ov"][2]) for o in ovs]
+        sc = False
+        for i, c in enumerate(lib):
+            kk, spec = c.split(" ", 1)
+            f = parse_func(spec)
+            if kk in ("S", "D"):
+                sc = sc or matches(f[2], f[3], a_types)
+            cands.append((100000 + i, "d" if kk in ("d", "D") else "s", f[1] is not None, f[2], f[3]))
+        if sc:
+            chk.count("site:skipped-short-circuit")
+            continue
+        want = rank_oracle(cands, a_types)
+        call = f"{name}({', '.join(e for _, e in args)})"
+        if want[0] == "ok" and want[1] < 100000:
+            tag = [o["tag"] for o in ovs if o["id"] == want[1]][0]
+            stmt = f"let v: T{tag} = {call};"
+            wantc = ("ok", f"T{tag}")
+        else:
+            stmt = f"let v = {call};"
+            wantc = ("ok", "lib") if want[0] == "ok" else (want[0], None)
+        for site in SITES:
+            p, host = site_program(name, args, nlevels, ovs, site, stmt)
+            progs.append((name, args, nlevels, ovs, site, p, wantc, site_model_line(name, args, nlevels, ovs, site, host, lib)))
+    resps = run_harness([{"op": "run", "src": x[5], "compile_only": True} for x in progs], per_req_timeout=30.0)
+    mres = run_model([x[7] for x in progs])
+    first = {}
+    for (name, args, nlevels, ovs, site, p, wantc, mline), resp, gm in zip(progs, resps, mres):
+        chk.evaluations += 1
+        chk.count("site:" + site)
+        chk.count(f"site:levels-{nlevels}")
+        if any(o["forward"] for o in ovs): chk.count("site:with-forward-declaration")
+        if any(o["late"] for o in ovs): chk.count("site:with-pending-outer-forward")
+        if len({o["tag"] for o in ovs}) < len(ovs): chk.count("site:identical-signature-across-levels")
+        replay = {"op": "run", "src": p, "compile_only": True, "site": site, "model": mline}
+        c = resp.get("compile")
+        if c is None:
+            chk.violation("site:panic", f"compiler panicked at call site {site}: {p!r}: {json.dumps(resp)[:300]}", replay)
+            continue
+        if c == "ok":
+            got = "ok"
+        elif c.get("class") == "VariableTypeMismatch":
+            got = "wrong-winner"
+        else:
+            got = c.get("class")
+        chk.count("site:outcome:" + got)
+        if got != wantc[0]:
+            chk.violation(f"site:{site}:expected-{wantc[0]}-got-{got}",
+                          f"call site '{site}' ({nlevels} scope levels): the visible overloads give {wantc}, the compiler says {got} "
+                          f"({c if c == 'ok' else c.get('msg', '')[:160]}); program: {p!r}", dict(replay, expected=list(wantc), got=got))
+            continue
+        gmn = {"ambiguous": "AmbiguousOverload", "nooverload": "NoOverload"}.get(gm, "ok" if gm.startswith("ok ") else gm)
+        if gmn != got:
+            chk.violation("tie:ovl:resolve_at", f"model {gm} vs implementation {got} at call site '{site}': {p!r}",
+                          dict(replay, model_out=gm), no_input=True)
+        elif gm.startswith("ok ") and wantc[1] not in (None, "lib"):
+            mid = int(gm[3:])
+            mtag = [f"T{o['tag']}" for o in ovs if o["id"] == mid]
+            if mtag != [wantc[1]]:
+                chk.violation("tie:ovl:resolve_at", f"model picks {gm} ({mtag}), implementation and oracle {wantc[1]}: {p!r}",
+                              dict(replay, model_out=gm), no_input=True)
+        key = id(ovs)
+        if key in first and first[key] != got:
+            chk.violation(f"meta:site:{site}", f"the outcome depends on where the call is written: {first[key]} after the declarations, "
+                          f"{got} at '{site}': {p!r}", replay)
+        first.setdefault(key, got)
+    for x in progs[:2]:
+        chk.sample({"site": x[4], "program": x[5]})
+
+
 def run(chk):
     rng = chk.rng
     quick = chk.tier == "quick"
@@ -262,6 +474,8 @@ def run(chk):
                 chk.violation("meta:extra", f"adding a non-matching overload changed the outcome: base {base_out[bi]}, now {got}: {p!r}", replay)
     for _, _, p, _, _, _, _ in progs[:3]:
         chk.sample({"program": p})
+
+    run_sites(chk, rng, quick)
 
     # the repaired witness
     w = 'fn eq<T>(a:Sequence<T>,b:Sequence<T>)->bool{false}  let r=[1]==[1];'
